@@ -33,6 +33,9 @@ def cases(ctx):
     for p in ctx.family("W"):
         for k in (2, 3, 4, 5):
             yield {"op": "limit_fanin", "c": p, "k": k, "src": "W"}
+        # repeated application: limit to k1, then limit the result to k2 < k1 (helper names must stay unique)
+        for k1, k2 in ((5, 3), (4, 2), (3, 2)):
+            yield {"op": "limit_fanin", "c": p, "k": k2, "k1": k1, "src": "W2"}
     g2 = ctx.family("G2")
     sel = g2 if not ctx.quick else rng.sample(g2, 400)
     for p in sel:
@@ -42,7 +45,7 @@ def cases(ctx):
 
     for j in range(60 if ctx.quick else 600):
         r = ctx.rng("C05g3", j)
-        c = gen.rand_circuit(r, n_in=r.randint(2, 6), n_gates=r.randint(3, 16), max_fanin=5, xconst=0.1)
+        c = gen.rand_circuit(r, n_in=r.randint(2, 6), n_gates=r.randint(3, 16), max_fanin=5, xconst=0.1, loaded_in_out=0.1)
         k = r.choice([2, 2, 3, 4, 5])
         yield {"op": "limit_fanin", "c": proj(c), "k": k, "src": "G3"}
         yield {"op": "limit_fanout", "c": proj(c), "k": r.choice([2, 2, 3]), "src": "G3"}
@@ -97,7 +100,7 @@ def run_case(case, ctx):
             return []
     try:
         if case["op"] == "limit_fanin":
-            r = cg.tx.limit_fanin(c, case["k"])
+            r = cg.tx.limit_fanin(cg.tx.limit_fanin(c, case["k1"]), case["k"]) if case.get("k1") else cg.tx.limit_fanin(c, case["k"])
         elif case["op"] == "limit_fanout":
             r = cg.tx.limit_fanout(c, case["k"])
         elif case["op"] == "acyclic_unroll_acyclic":
